@@ -97,6 +97,23 @@ def cases(rng, tier):
         else:
             qs = ",".join(k + str(t) for t in (0, 1, 20, 500, 5000, 60000, 16777215) for k in "cps")
             yield ("light h %s %s" % (h, qs), "raw-light-" + klass)
+    # yaw curves of more than 2^24 ms (4.66 h: beyond it milliseconds are no longer exact in binary32 seconds) probed at
+    # every float within a few ulps of their setpoint boundaries: the seek must terminate on whichever side it lands
+    from .common import f32_bits, bits_f32
+    from . import yawgen as Y
+    for rep in range(6 if tier == "thorough" else 2):
+        y = Y.rand_yaw(rng, n=0)
+        y["deltas"] = [(rng.randint(40000, 65535), rng.choice([0, 900, -900, rng.randint(-3000, 3000)])) for _ in range(rng.randint(300, 420))]
+        bs = Y.boundaries(y)
+        late = [b for b in bs if b > (1 << 24)]
+        pick = rng.sample(late, min(len(late), 40)) + rng.sample(bs, 10)
+        qs = []
+        for b in pick:
+            u = f32_bits(b / 1000.0)
+            for k in (-3, -2, -1, 0, 1, 2, 3):
+                qs.append(rng.choice("yr") + "%08x" % (u + k))
+        yield ("yaw h %s %s" % (hexs(bytes(v & 255 for v in Y.encode(y))), ",".join(qs)), "yaw-boundary-gaps")
+        yield ("yaw f %s %s" % (hexs(bytes(v & 255 for v in Y.encode(y))), ",".join(qs[:120])), "yaw-boundary-gaps")
 
 
 def compare(case, om, oi):
